@@ -418,8 +418,6 @@ func (nfs *Nfs) doCreate(dfh nfstypes.Nfs_fh3, name nfstypes.Filename3, kind nfs
 			err = nfstypes.NFS3ERR_NOSPC
 			return
 		}
-		dip.Nlink = dip.Nlink + 1 // for ..
-		dip.WriteInode(op.Atxn)
 	}
 	if kind == nfstypes.NF3LNK {
 		_, ok := ip.Write(op.Atxn, uint64(0), uint64(len(data)), data)
